@@ -80,3 +80,49 @@ SPECS = {
         partial=["rendering stage proved for all validator values (C11_*_chain, escape_exact); scanner stage proved on instances, exclusion classes K11b-K11g are known findings"],
     ),
 }
+
+PROC_TB = "process-level tie: the real cargo-tauri-typegen binary (built from /repo's working tree into /verif/.build) and BuildSystem::generate_at_build_time (via the harness) run in sandbox directories under /verif/.work; observations (exit status, action, files written by mtime, cache record) compared with the Lean run model through driver op `history`; C08 oracle = byte comparison with a forced generation into an empty directory"
+FS_ASSUME = ["std::fs::write replaces the file completely or fails without touching it; create_dir_all / remove_file / read_dir have POSIX semantics; no concurrent writer",
+             "DefaultHasher (SipHash-1-3) and serde_json of the hash structs are injective on the inputs that occur (64-bit collisions not modelled)"]
+
+
+def _pspecs():
+    from . import pcases
+    return {
+        "C13": dict(
+            cases=pcases.cases_c13, theorems="Typegen.Theorems.C13",
+            trusted_base=[LEAN_TB, PROC_TB, "modelled, not verified: HashMap/HashSet/WalkDir enumerate their entries in some permutation; Rust's Ord on String/PathBuf = lexicographic on code points"],
+            assumptions=FS_ASSUME + ["the whole-pipeline text is compared between fresh processes (byte equality modulo the `Generated at:` line); equality with the model's single output is added by the project-level correspondence (see DESIGN.md)"],
+            rule="random multi-file projects (2..6 files, nested directories, commands/structs/enums/events/channels spread over files) x both modes; each generated in N fresh processes "
+                 "(quick 8, thorough 40; every process has fresh hash seeds) into fresh directories; plus --verbose, --visualize-deps (twice), layout noise + decoy items/files, item reordering, "
+                 "moving items between files and merging files; non-trivial = every case (>=2 files); distinct = (project seed, mode, transformation)",
+            exhaustive={"quick": False, "thorough": False},
+        ),
+        "C14": dict(
+            cases=pcases.cases_c14, theorems="Typegen.Theorems.C14",
+            trusted_base=[LEAN_TB, PROC_TB],
+            assumptions=FS_ASSUME + ["mtimes are those of the files inside the output directory; the build path's transient .write_test changes the directory's own mtime (observation, not a violation)"],
+            rule="multi-file projects (1..6 files, both modes, >=3 type mappings) on the CLI and the build-script path: three further non-forced runs in fresh processes must leave bytes and mtime_ns of every file untouched; "
+                 "histories with forced runs from every cache state (absent, matching, mismatching, lost) compared with the run model; flag x config-file force table; non-trivial = all; distinct = case description",
+            exhaustive={"quick": False, "thorough": False},
+        ),
+        "C17": dict(
+            cases=pcases.cases_c17, theorems="Typegen.Theorems.C17",
+            trusted_base=[LEAN_TB, PROC_TB, "faults are injected by filesystem obstacles: a directory in place of the file to be written, a regular file in place of the output directory"],
+            assumptions=FS_ASSUME + ["a failing write of the cache record itself is covered by the theorems only (after invalidate-first no static obstacle makes exactly that write fail)",
+                                     "crash points are covered by the theorem C17_every_prefix; the real binary is not killed mid-run"],
+            rule="for every operation of the plan that an obstacle can make fail (output path, types.ts, commands.ts, events.ts, index.ts, dependency-graph.txt/.dot with visualisation on): the fault in a first run, in a run after an output-changing edit, "
+                 "and with the edit reverted before the recovery run; both paths; thorough adds double faults and a second reverted aspect; every history ends with recovery runs compared with a fresh generation; non-trivial = all; distinct = history",
+            exhaustive={"quick": True, "thorough": True},
+            exhaustive_scope={"quick": "all single-write fault positions x {first run, run after edit, edit reverted} x {cli, build} x {viz off, on}", "thorough": "same + double faults"},
+        ),
+        "C08": dict(
+            cases=pcases.cases_c08, theorems="Typegen.Theorems.C08",
+            trusted_base=[LEAN_TB, PROC_TB, "tg-extract (syn) re-reads the *HashData field lists from src/build/generation_cache.rs on every run; the theorem C08_hashedFields_cover is re-checked against them"],
+            assumptions=FS_ASSUME + ["one representative edit per output-affecting edit class (22 classes + event on/off + commands on/off)"],
+            rule="histories [run, edit a, run] for every edit class a, [run, delete f, run] for every generated file and the cache record, on both paths; [run, edit a, run, edit b, run] for ordered pairs (quick: every 7th pair rotating with the seed; thorough: all 552 + reverted pairs on the build path); "
+                 "after every successful run the output is compared byte-wise (timestamp line ignored) with a forced generation into an empty directory; non-trivial = history with >=2 steps; distinct = history",
+            exhaustive={"quick": False, "thorough": True},
+            exhaustive_scope={"thorough": "all single edits and ordered pairs of the 24 edit classes"},
+        ),
+    }
